@@ -36,10 +36,10 @@ def generate_all():
             else:
                 body = text + "\n"
             code = (f"// GENERATED on every run by /verif/lib/kx.py — verbatim lines {lines[0]}-{lines[1]} of {r['file']} (fn {r['fn']})\n"
-                    f"#[allow(unused_variables, unused_mut, clippy::all)]\n{r['sig']} {{\n{pre}{body}{post}}}\n")
+                    f"{r.get('attr', '#[allow(unused_variables, unused_mut, clippy::all)]')}\n{r['sig']} {{\n{pre}{body}{post}}}\n{r.get('suffix', '')}\n")
             info.update(ok=True, lines=list(lines), nlines=text.count("\n") + 1)
         except rsx.AnchorLost as e:
-            code = (f"// ANCHOR LOST: {e}\n#[allow(unused_variables)]\n{r['sig']} {{\n    panic!(\"VERIF_ANCHOR_LOST {name}\")\n}}\n")
+            code = (f"// ANCHOR LOST: {e}\n{r.get('attr', '#[allow(unused_variables)]')}\n{r['sig']} {{\n    panic!(\"VERIF_ANCHOR_LOST {name}\")\n}}\n{r.get('suffix', '')}\n")
             info.update(ok=False, error=str(e))
         p = os.path.join(GEN, name + ".rs")
         old = open(p).read() if os.path.exists(p) else None
